@@ -27,6 +27,9 @@ fn main() {
         std::process::exit(2);
     }
     install_quiet_panic_hook();
+    if args[1] == "probe-recover" && args.len() >= 4 {
+        std::process::exit(props::c13::probe_main(&args[2], &args[3]));
+    }
     if args[1] == "replay" {
         let text = std::fs::read_to_string(&args[2]).unwrap_or_else(|e| {
             eprintln!("cannot read {}: {}", args[2], e);
